@@ -1516,15 +1516,18 @@ func TestVerif_C09_Logs(t *testing.T) {
 			r.Sample(map[string]any{"case": caseID, "log": l.render(), "replicas": plans})
 		}
 	}
-	r.Require("logs_with_conflicting_txn", int64(kit.N(100, 300)/shards))
-	r.Require("txn_truth_commit", int64(kit.N(500, 3000)/shards))
-	r.Require("txn_truth_conflict", int64(kit.N(300, 2000)/shards))
-	r.Require("txn_commit_despite_write_in_window", int64(kit.N(50, 300)/shards))
-	r.Require("resets_inside_conflicting_txn_window", int64(kit.N(100, 500)/shards))
-	r.Require("resets_install", int64(kit.N(100, 500)/shards))
-	r.Require("batches_txn_not_first", int64(kit.N(300, 2000)/shards))
-	r.Require("chunked_txns", int64(kit.N(50, 300)/shards))
-	r.Require("replica_runs_checked_to_the_end", int64(kit.N(600, 4000)/shards))
+	// minimum observations (about half of what the unchanged tree yields); thorough runs 30x the cases
+	req := func(name string, quick int) { r.Require(name, int64(kit.N(quick, quick*25)/shards)) }
+	req("logs_with_conflicting_txn", 300)
+	req("txn_truth_commit", 1800)
+	req("txn_truth_conflict", 700)
+	req("txn_commit_despite_write_in_window", 150)
+	req("resets_inside_conflicting_txn_window", 500)
+	req("resets_install", 300)
+	req("resets_mid_chunked_op", 80)
+	req("batches_txn_not_first", 3500)
+	req("chunked_txns", 400)
+	req("replica_runs_checked_to_the_end", 1800)
 }
 
 // ---------------------------------------------------------------------------
@@ -1601,9 +1604,10 @@ func TestVerif_C09_Small(t *testing.T) {
 			r.Sample(map[string]any{"case": caseID, "log": l.render(), "replicas": fmt.Sprintf("%d partitions + restart/crash/install at each of %d positions", 1<<(n-1), n-1)})
 		}
 	}
-	r.Require("logs_with_conflicting_txn", int64(kit.N(12, 200)/shards))
-	r.Require("partitions", int64(kit.N(600, 20000)/shards))
-	r.Require("resets_inside_conflicting_txn_window", int64(kit.N(30, 500)/shards))
-	r.Require("batches_txn_not_first", int64(kit.N(500, 10000)/shards))
-	r.Require("replica_runs_checked_to_the_end", int64(kit.N(1000, 30000)/shards))
+	req := func(name string, quick int) { r.Require(name, int64(kit.N(quick, quick*25)/shards)) }
+	req("logs_with_conflicting_txn", 25)
+	req("partitions", 2500)
+	req("resets_inside_conflicting_txn_window", 300)
+	req("batches_txn_not_first", 3000)
+	req("replica_runs_checked_to_the_end", 3000)
 }
